@@ -325,8 +325,10 @@ CLAIMED = {
         "callback — fixed before thread start by the premise) or is never written outside its initialiser; (2) interleaving_eq_serial: for "
         "operations that read but do not write shared storage, EVERY interleaving of any number of threads' operation sequences gives each "
         "thread exactly the state and outputs of running its own sequence alone. Tied to the code by THREADS runs of the real library under "
-        "ThreadSanitizer and in a plain build (2..16 threads, seeded workloads over write/read/validate/chunk access/copy/ranges/error and "
-        "name strings, three logging modes), whose concurrent per-operation results must equal the serial ones.",
+        "ThreadSanitizer, in a plain build and in the build with the bundled checksum code (2..16 threads, seeded workloads over "
+        "write/read/validate/chunk access/copy/ranges/a download RUN through the header and write callbacks with a multipart response "
+        "carrying the thread's own boundary/error and name strings, three logging modes), whose concurrent per-operation results must "
+        "equal the serial ones.",
    design_ref="DESIGN.md section 7 C19",
    note="Partial: that library operations touch only their own contexts' heap objects and the footprint above is established by the "
         "generated footprint (statics) and searched by ThreadSanitizer (heap), not proved from the C semantics; libc/OpenSSL/zstd internals "
